@@ -607,24 +607,27 @@ def validated_ident_rule(ctx):
         if len(fs) != 1:
             obs.append(ob("C02.holes/alphabet/%s" % fname, False, "parse/expr.rs", "%s not found" % fname))
             continue
-        chars = set()
+        # the predicate is tabulated per character class by abstract interpretation (lib/absint.py): it may only accept
+        # [A-Za-z_$] (and digits when it is not the first character)
+        import absint as ai
+        tab = ai.char_predicate_table(fs[0], idx=tc)
+        if tab is None or any(v is None for _lo, _hi, v in tab):
+            und = [("%x-%x" % (lo, hi)) for lo, hi, v in (tab or []) if v is None][:4]
+            obs.append(ob("C02.holes/alphabet/%s" % fname, None, ctx.where(fs[0]), "the predicate is not made of comparisons with character constants and std ASCII predicates only (classes %s): its alphabet is not decided for this tree" % und))
+            continue
         bad = []
-        for n in sir.walk(fs[0].body):
-            if n.get("k") == "lit" and n.get("t") == "char":
-                chars.add(n["v"])
-        rngs = [(r["from"]["v"], r["to"]["v"]) for r in sir.walk(fs[0].body) if r.get("k") == "range" and r.get("from") and r.get("to") and r["from"].get("t") == "char"]
-        for lo, hi in rngs:
-            for c in range(ord(lo), ord(hi) + 1):
-                ch = chr(c)
-                if not (ch.isascii() and (ch.isalpha() or (ch.isdigit() and not first))):
-                    bad.append(ch)
-        for ch in chars:
-            if ch in "_$" or (ch.isascii() and ch.isalnum()):
+        accepted = []
+        for lo, hi, v in tab:
+            if not v:
                 continue
-            bad.append(ch)
-        if first and any("0" <= lo <= "9" for lo, hi in rngs):
-            bad.append("digit as first character")
-        obs.append(ob("C02.holes/alphabet/%s" % fname, not bad and bool(rngs), ctx.where(fs[0]), "character class %s + %s is inside JS IdentifierName" % (rngs, sorted(chars)) if not bad else "admits %s" % bad))
+            accepted.append((lo, hi))
+            for cp in (lo, hi):
+                ch = chr(cp)
+                if not (ch in "_$" or (ch.isascii() and (ch.isalpha() or (ch.isdigit() and not first)))):
+                    bad.append("U+%04X" % cp if not ch.isprintable() or not ch.isascii() else ch)
+        obs.append(ob("C02.holes/alphabet/%s" % fname, not bad and bool(accepted), ctx.where(fs[0]),
+                      "accepts %d character classes (%s..), all inside JS IdentifierName%s" % (len(accepted), "".join(chr(lo) for lo, _h in accepted[:6]), "Start" if first else "Part") if not bad else "admits %s" % sorted(set(bad))[:8],
+                      witness=None if not bad else "a field name containing that character is emitted unquoted into the generated JavaScript"))
     return obs
 
 
